@@ -43,6 +43,9 @@ EXPR_EXEMPLARS_REDUCED = [
     "lambda: 1", "[1, 2]", "all(i > 0 for i in x if i)", "f'{x}'",
 ]
 
+EXPR_EXEMPLARS_TINY = ["None", "f()()", "x and y", "x < 1", "all(i > 0 for i in x if i)"]
+EXPR_MENUS = {0: EXPR_EXEMPLARS_REDUCED, 1: EXPR_EXEMPLARS_FULL, 2: EXPR_EXEMPLARS_TINY}
+
 STMT_EXEMPLARS = [
     "pass", "x = 1", "x: int = 1", "x: int", "x += 1", "del x", "return x", "return",
     "raise E", "assert x", "import os", "from typing import List", "global x",
@@ -176,10 +179,11 @@ IDENT_FIELDS = {
 ANNOTATION_SITES = {(ast.AnnAssign, "annotation"), (ast.arg, "annotation"), (ast.FunctionDef, "returns")}
 
 
-def descriptors(text: str, full_menu: bool) -> List[Any]:
+def descriptors(text: str, menu: int) -> List[Any]:
     """Every single deviation of the seed ``text`` as a JSON-able descriptor."""
     tree = ast.parse(text)
-    exprs = EXPR_EXEMPLARS_FULL if full_menu else EXPR_EXEMPLARS_REDUCED
+    menu = int(menu)
+    exprs = EXPR_MENUS[menu]
     result = []  # type: List[Any]
     names_in_scope = sorted(
         {n.id for n in ast.walk(tree) if isinstance(n, ast.Name)}
@@ -198,7 +202,7 @@ def descriptors(text: str, full_menu: bool) -> List[Any]:
                 for k in range(len(ANNOTATION_MENU)):
                     result.append(("annotation", jpath, k))
             for k in range(len(exprs)):
-                result.append(("expr", jpath, k, 1 if full_menu else 0))
+                result.append(("expr", jpath, k, menu))
             if isinstance(child, ast.Constant):
                 if isinstance(child.value, str):
                     for k in range(len(STRING_MENU)):
@@ -290,8 +294,7 @@ def apply(text: str, descriptor: Any) -> Optional[str]:
         items = getattr(parent, field)
         items[index], items[index + 1] = items[index + 1], items[index]
     elif kind == "expr":
-        menu = EXPR_EXEMPLARS_FULL if descriptor[3] else EXPR_EXEMPLARS_REDUCED
-        _set(tree, path, _expr(menu[descriptor[2]]))  # type: ignore
+        _set(tree, path, _expr(EXPR_MENUS[int(descriptor[3])][descriptor[2]]))  # type: ignore
     elif kind == "annotation":
         _set(tree, path, _expr(ANNOTATION_MENU[descriptor[2]]))  # type: ignore
     elif kind == "string":
@@ -335,11 +338,11 @@ def _parsed(text: str) -> ast.AST:
     return cached[1]
 
 
-def mutants_of_shard(seed: str, full_menu: bool, index: int, slices: int) -> Iterator[Tuple[Any, str]]:
+def mutants_of_shard(seed: str, menu: int, index: int, slices: int) -> Iterator[Tuple[Any, str]]:
     """The mutants (descriptor, text) of one slice of the seed's neighbourhood."""
     text = seed_text(seed)
     seen = set()
-    for number, descriptor in enumerate(descriptors(text, full_menu)):
+    for number, descriptor in enumerate(descriptors(text, menu)):
         if number % slices != index:
             continue
         mutant = apply(text, descriptor)
